@@ -828,9 +828,23 @@ class Gen:
                 return
             outs = [self.fresh("seq")]
             d = v.shape[axis]
-            form = self.pick(["bare", "scalar_even", "scalar_uneven", "vector"])
+            form = self.pick(["bare", "scalar_even", "scalar_uneven", "vector", "scalar_runtime"])
             ins = [v.name]
-            if form != "bare":
+            if form == "scalar_runtime":
+                # a rank-0 split computed at run time (its shape is known, its value is not): k + 0 * ReduceSum(int64 input)
+                src = self.pick_val(lambda w: w.dtype == I64 and w.kind == "input" and w.arr.size >= 1)
+                if src is None and self.depth == 0 and len(self.inputs) < self.cfg.get("max_inputs", 4) + 1:
+                    src = self.add_input(I64, (2,), style="smallint")
+                k = self.pick([q for q in range(1, d + 1) if d % q == 0])
+                r = self.emit("ReduceSum", [src], keepdims=0) if src is not None and self.opset >= 13 else None
+                z = self.emit("Mul", [r[0], self.const_array(np.asarray(0, dtype=np.int64))]) if r else None
+                s_ = self.emit("Add", [z[0], self.const_array(np.asarray(k, dtype=np.int64))]) if z else None
+                if not s_ or s_[0].shape != ():
+                    form = "bare"
+                else:
+                    ins.append(s_[0].name)
+                    self.features.add("sequence:split_scalar_runtime")
+            elif form != "bare":
                 # split operand (constant in either form): a scalar chunk size that divides the axis or leaves a smaller last
                 # chunk, or the list of chunk sizes. The folder turns these into Split + SequenceConstruct.
                 if form == "scalar_even":
@@ -845,7 +859,9 @@ class Gen:
                 ins.append(self.const_array(sp, how=self.pick(["node", "init"])).name)
                 self.features.add("sequence:split_" + form)
             keepdims = self.pick([0, 1])
-            if form != "bare" and keepdims == 0:
+            if form == "scalar_runtime":
+                keepdims = 1
+            elif form != "bare" and keepdims == 0:
                 # ONNX: keepdims is ignored when `split` is given (onnx.reference and shape inference do so); onnxruntime squeezes
                 # anyway for a scalar split, and the folder follows onnxruntime. With chunks of size 1 the operator itself is
                 # runtime-ambiguous (not generated, like OneHot); with a chunk of another size nothing can be squeezed and the
@@ -1156,7 +1172,7 @@ class Gen:
         ("g_unary", 8), ("g_binary", 10), ("g_compare", 3), ("g_logic", 2), ("g_where", 3), ("g_clip", 3),
         ("g_variadic", 3), ("g_cast", 5), ("g_reduce", 4), ("g_matmul", 3), ("g_transpose", 3), ("g_reshape", 6),
         ("g_expand", 3), ("g_concat", 3), ("g_split", 2), ("g_slice", 3), ("g_gather", 2), ("g_shape_chain", 5),
-        ("g_softmax", 2), ("g_misc", 5), ("g_sequence", 1), ("g_if", 3), ("g_loop", 2), ("g_function_call", 2),
+        ("g_softmax", 2), ("g_misc", 5), ("g_sequence", 3), ("g_if", 3), ("g_loop", 2), ("g_function_call", 2),
     ]
 
     def grow(self, n_nodes):
